@@ -126,6 +126,17 @@ def paths_are_equal(F):
                 fn = h
     # upper-casing is part of the normalisation and the './' rule is present
     up = [t for t in c0 if t[0] == "expr" and t[1][0] == "call" and t[1][1].endswith("ConvertToUpperInPlace")]
+    if not up:
+        # the folded value may be a new local (`const std::string upper = ConvertToUpper(arg);`): then everything else must be
+        # derived from that local, never from the argument as given
+        def unwrap(t):
+            while t is not None and t[0] == "ctor" and len(t[2]) == 1:
+                t = t[2][0]
+            return t
+        folded = [t for t in c0 if t[0] == "decl" and unwrap(t[2]) is not None and unwrap(t[2])[0] == "call"
+                  and unwrap(t[2])[1].endswith("StringUtility::ConvertToUpper") and unwrap(t[2])[3] == (("X",),)]
+        if len(folded) == 1 and not any(mentions(t, ("X",)) for t in c0 if t is not folded[0]):
+            up = folded
     dot = [t for t in c0 if t[0] == "if" and "./" in repr(t)]
     inst = XF + "PathsAreEqual#contents"
     # order matters: every value derived from the argument must be derived after the case folding
